@@ -82,6 +82,16 @@ def generate(rng, tier):
                  'failat 1', 'failat 2', 'failat 0', 'parse_buf 0 ' + hx(b'include("deep1.conf")\n'), 'parse_buf 0 ' + hx(b'sec { include("deep2.conf") }\n'),
                  'parse_buf 0 ' + hx(b'include("self.conf")\n'), 'parse_file 0 ' + hx(b'selfsec.conf'),
                  'setint 0 %s 1 0' % hx(b'i'), 'setmulti 0 %s %s %s' % (hx(b'pl'), hx(b'ok'), hx(b'-'))]
+    # directed: an annotated option whose value was given explicitly, then bulk sets that succeed and that fail
+    for k, calls in enumerate((['setlist 0 %s str %s' % (hx(b'sl'), hx(b'z')), 'setcomment 0 %s %s' % (hx(b'sl'), hx(b'note')), 'setmulti 0 %s %s %s' % (hx(b'sl'), hx(b'x'), hx(b'y')),
+                                'setmulti 0 %s %s' % (hx(b'sl'), hx(b'p')), 'print 0 0'],
+                               ['setint 0 %s 4 0' % hx(b'i'), 'setcomment 0 %s %s' % (hx(b'i'), hx(b'n')), 'setmulti 0 %s %s' % (hx(b'i'), hx(b'7')), 'setmulti 0 %s %s' % (hx(b'i'), hx(b'zz')),
+                                'setmulti 0 %s %s' % (hx(b'i'), hx(b'8'))],
+                               ['setopt 0 %s %s' % (hx(b'pl'), hx(b'v')), 'setcomment 0 %s %s' % (hx(b'pl'), hx(b'c')), 'setmulti 0 %s %s %s' % (hx(b'pl'), hx(b'a'), hx(b'b')),
+                                'setmulti 0 %s %s' % (hx(b'pl'), hx(b'c')), 'setcomment 0 %s %s' % (hx(b'pl'), hx(b'd'))])):
+        for text, fl in ((None, 0), (TEXTS[2], F['COMMENTS'])):
+            n += 1
+            yield scenario('apid%d' % n, text, False, fl, 'api-directed', calls)
     for _ in range(150 if tier == 'quick' else 4000):
         n += 1
         yield scenario('api%d' % n, r.pick([None, TEXTS[0], TEXTS[2]]), r.chance(1, 2), r.pick([0, F['COMMENTS']]), 'api',
